@@ -1,3 +1,207 @@
-(* C09 - property theorems (stub). *)
+(* C09 - handlers finish and release everything once the peer is gone: theorems.
+
+   The statement of the property on the model: for every service scenario [s] and every
+   connection [c] (pending segments, then client close / drained datagram wrapper /
+   silence), the handler finishes - with the explicit fuel bound [fuel_for c], linear
+   in the input - and holds nothing afterwards. *)
 From HT Require Import Common.Bytes C09.Model C09.Check C09.Proofs.
 Open Scope Z_scope.
+
+Definition finishes (s : scn) (c : conn) : Prop := finished (h_out (handle s (fuel_for c) c)) = true.
+Definition releases (s : scn) (c : conn) : Prop := h_res (handle s (fuel_for c) c) = res0.
+Definition C09_full : Prop := forall s c, finishes s c /\ releases s c.
+
+(* ---- the unchanged code violates it; the classes of violations ---- *)
+
+(* io.Copy over the drained datagram wrapper never ends, for any amount of fuel *)
+Theorem C09_copy_on_drained_datagram_never_returns : forall fuel wr c,
+  c_term c = TZero -> fst (io_copy fuel wr c) = OutOfFuel.
+Proof. exact io_copy_zero_spins. Qed.
+
+(* ntp and echo on a datagram port: refuted for EVERY datagram; each unit of fuel is one more Read *)
+Theorem C09_terminates_ntp_echo_datagram_refuted : forall s fuel c,
+  copy_svc (sc_svc s) = true -> c_term c = TZero ->
+  h_out (handle s fuel c) = OutOfFuel /\
+  m_reads (c_m (h_conn (handle s fuel c))) = (m_reads (c_m c) + N.of_nat fuel)%N.
+Proof. exact handle_copy_spins. Qed.
+
+(* adb on a datagram port: a datagram that starts with CNXN and carries a full header makes
+   the handler answer for ever: at least one 24-byte packet per unit of fuel *)
+Theorem C09_terminates_adb_datagram_refuted : forall fuel d m,
+  starts_with s_CNXN d = true -> (24 <= length d)%nat -> (length d <= ADBSZ)%nat ->
+  h_out (handle_adb fuel (mkConn [d] TZero m)) = OutOfFuel /\
+  (N.of_nat fuel <= m_writes (c_m (h_conn (handle_adb fuel (mkConn [d] TZero m)))))%N.
+Proof. exact handle_adb_datagram_flood. Qed.
+
+(* ftp holds on to its pump goroutine after every connection whatsoever, never gives a
+   listener back, and descriptors never fall below listeners *)
+Theorem C09_released_ftp_refuted : forall v6 dial fuel c,
+  let r := h_res (handle_ftp v6 dial fuel c) in 1 <= r_gor r /\ 0 <= r_lis r /\ r_lis r <= r_fds r.
+Proof. exact handle_ftp_keeps. Qed.
+
+(* smtp: exactly one goroutine per connection, whatever was said on it *)
+Theorem C09_released_smtp_refuted : forall fuel c, h_res (handle_smtp fuel c) = mkRes 1 0 0.
+Proof. exact handle_smtp_res. Qed.
+
+Theorem C09_full_refuted : ~ C09_full.
+Proof.
+  intros H. destruct (H (mkScn Smtp false false DialNone) (mkConn [] TEof m0)) as [_ Hr].
+  unfold releases, handle in Hr; cbn [sc_svc] in Hr. rewrite handle_smtp_res in Hr. discriminate.
+Qed.
+
+(* ---- and holds everywhere else ---- *)
+
+(* outside the finding classes (ntp/echo/adb behind the datagram wrapper; ftp; smtp) every
+   handler finishes within [fuel_for c] and releases everything *)
+Theorem C09_outside_findings : forall s c, ~ finding_class s c -> finishes s c /\ releases s c.
+Proof. exact outside_findings. Qed.
+
+(* stream connections, closed or silent: io.Copy-based handlers return, after waiting out
+   at most one idle deadline *)
+Theorem C09_terminates_ntp_echo_stream : forall s c,
+  copy_svc (sc_svc s) = true -> c_term c <> TZero ->
+  h_out (handle s (fuel_for c) c) = Returned /\
+  (m_timeouts (c_m (h_conn (handle s (fuel_for c) c))) <= m_timeouts (c_m c) + 1)%N.
+Proof. exact handle_copy_returns. Qed.
+
+(* bufio-based handlers return on EVERY connection end, the drained datagram wrapper
+   included *)
+Theorem C09_terminates_bufio_services : forall s c,
+  bufio_svc (sc_svc s) = true -> h_out (handle s (fuel_for c) c) = Returned.
+Proof. exact handle_bufio_returns. Qed.
+
+(* ... because of the cut-off in bufio's fill: exactly [i] empty reads, then ErrNoProgress *)
+Theorem C09_bufio_cutoff : forall i buf c,
+  c_segs c = [] -> c_term c = TZero ->
+  exists c', fill_loop i buf c = (buf, ENoProgress, c') /\ c_segs c' = [] /\ c_term c' = TZero /\
+             m_zero (c_m c') = (m_zero (c_m c) + N.of_nat i)%N /\
+             m_reads (c_m c') = (m_reads (c_m c) + N.of_nat i)%N.
+Proof. exact fill_loop_drained_zero. Qed.
+
+(* adb on stream connections finishes (returns, or panics on a timeout / short packet and
+   is recovered by server.handle) *)
+Theorem C09_terminates_adb_stream : forall fuel c,
+  c_term c <> TZero -> (weight c < fuel)%nat -> finished (h_out (handle_adb fuel c)) = true.
+Proof. exact handle_adb_ends. Qed.
+
+(* ftp and smtp never spin, on any connection end: ftp returns, panics (recovered) or blocks
+   in a data command; smtp returns (or the dialogue leaves the modelled fragment) *)
+Theorem C09_ftp_never_spins : forall s c,
+  sc_svc s = Ftp -> h_out (handle s (fuel_for c) c) <> OutOfFuel.
+Proof. exact handle_ftp_scn_ends. Qed.
+
+Theorem C09_terminates_smtp : forall s c,
+  sc_svc s = Smtp ->
+  (h_out (handle s (fuel_for c) c) = Returned \/ h_out (handle s (fuel_for c) c) = Unmodelled) /\
+  h_res (handle s (fuel_for c) c) = mkRes 1 0 0.
+Proof. exact handle_smtp_scn_ends. Qed.
+
+(* the line-loop handlers wait out at most ONE idle deadline on any connection, with any
+   fuel: the first Read that times out ends dummy's loop and ftp's control loop *)
+Theorem C09_one_deadline_dummy : forall fuel c,
+  (m_timeouts (c_m (h_conn (handle_dummy fuel c))) <= m_timeouts (c_m c) + 1)%N.
+Proof. exact handle_dummy_one_deadline. Qed.
+
+Theorem C09_one_deadline_ftp : forall v6 dial fuel c,
+  (m_timeouts (c_m (h_conn (handle_ftp v6 dial fuel c))) <= m_timeouts (c_m c) + 1)%N.
+Proof. exact handle_ftp_one_deadline. Qed.
+
+(* nothing is kept by the other services, for any fuel and connection *)
+Theorem C09_released_clean_services : forall s fuel c,
+  clean_svc (sc_svc s) = true -> h_res (handle s fuel c) = res0.
+Proof. exact handle_clean_res. Qed.
+
+(* ---- histories of sequential connections ---- *)
+
+Theorem C09_history_additive : forall s a b, history s (a ++ b) = res_add (history s a) (history s b).
+Proof. exact history_app. Qed.
+
+(* N connections of the same kind hold N times what one holds: the slope the harness measures *)
+Theorem C09_history_flat : forall s c n,
+  history s (repeat c n) = res_scale (Z.of_nat n) (h_res (handle s (fuel_for c) c)).
+Proof. exact history_repeat. Qed.
+
+(* any history at all leaves a clean service as it was *)
+Theorem C09_history_clean_services : forall s cs, clean_svc (sc_svc s) = true -> history s cs = res0.
+Proof. exact history_clean. Qed.
+
+Theorem C09_history_smtp_grows : forall u v6 d cs,
+  history (mkScn Smtp u v6 d) cs = mkRes (Z.of_nat (length cs)) 0 0.
+Proof. exact history_smtp. Qed.
+
+Theorem C09_history_ftp_grows : forall u v6 d cs,
+  let r := history (mkScn Ftp u v6 d) cs in
+  Z.of_nat (length cs) <= r_gor r /\ 0 <= r_lis r /\ r_lis r <= r_fds r.
+Proof. exact history_ftp. Qed.
+
+(* ---- non-vacuity and concrete witnesses (replayed on the implementation by the corpus) ---- *)
+
+Definition str_USER := [85;83;69;82;32;97;110;111;110;121;109;111;117;115;13;10]%N.
+Definition str_PASS := [80;65;83;83;32;97;110;111;110;121;109;111;117;115;13;10]%N.
+Definition str_PASV := [80;65;83;86;13;10]%N.
+Definition str_LIST := [76;73;83;84;13;10]%N.
+Definition str_QUIT := [81;85;73;84;13;10]%N.
+
+(* PASV never connected to, then LIST: the handler blocks for ever with the pump, the accept
+   goroutine, itself, one listener and the directory handle *)
+Example C09_ftp_passive_wait_witness :
+  let c := mkConn [str_USER; str_PASS; str_PASV; str_LIST] TEof m0 in
+  let h := handle (mkScn Ftp false false DialNone) (fuel_for c) c in
+  h_out h = Blocked /\ h_res h = mkRes 3 1 2.
+Proof. vm_compute. split; reflexivity. Qed.
+
+(* PASV, QUIT, client never connects: one listener and two goroutines stay behind; ten such
+   connections leave ten listeners and twenty goroutines *)
+Example C09_ftp_listener_witness :
+  let c := mkConn [str_USER; str_PASS; str_PASV; str_QUIT] TEof m0 in
+  let s := mkScn Ftp false false DialNone in
+  h_out (handle s (fuel_for c) c) = Returned /\
+  history s (repeat c 10) = mkRes 20 10 10.
+Proof. vm_compute. split; reflexivity. Qed.
+
+(* a closed stream to a clean bufio service: hypotheses of the positive theorems are met *)
+Example C09_nonvacuous_dummy :
+  let c := mkConn [[97;98;10;99]%N] TZero m0 in
+  ~ finding_class (mkScn Dummy true false DialNone) c /\
+  h_out (handle (mkScn Dummy true false DialNone) (fuel_for c) c) = Returned /\
+  m_zero (c_m (h_conn (handle (mkScn Dummy true false DialNone) (fuel_for c) c))) = 100%N.
+Proof.
+  split.
+  - unfold finding_class; cbn. intros [[_ [H|[H|H]]]|[H|H]]; discriminate.
+  - vm_compute. split; reflexivity.
+Qed.
+
+(* smtp, silence in the middle of a command: the partial line is taken as a command after the
+   first idle deadline, the error only shows after a second one *)
+Example C09_smtp_two_deadlines :
+  let c := mkConn [[72;69;76;79;32;120;13;10]%N; [78;79;79]%N] TTimeout m0 in
+  let h := handle (mkScn Smtp false false DialNone) (fuel_for c) c in
+  h_out h = Returned /\ m_timeouts (c_m (h_conn h)) = 2%N.
+Proof. vm_compute. split; reflexivity. Qed.
+
+Example C09_adb_flood_hypotheses :
+  let d := (s_CNXN ++ repeat 0 20)%N in
+  starts_with s_CNXN d = true /\ (24 <= length d)%nat /\ (length d <= ADBSZ)%nat.
+Proof. cbv zeta. split; [vm_compute; reflexivity|]. split; apply Nat.leb_le; vm_compute; reflexivity. Qed.
+
+Print Assumptions C09_copy_on_drained_datagram_never_returns.
+Print Assumptions C09_terminates_ntp_echo_datagram_refuted.
+Print Assumptions C09_terminates_adb_datagram_refuted.
+Print Assumptions C09_released_ftp_refuted.
+Print Assumptions C09_released_smtp_refuted.
+Print Assumptions C09_full_refuted.
+Print Assumptions C09_outside_findings.
+Print Assumptions C09_terminates_ntp_echo_stream.
+Print Assumptions C09_terminates_bufio_services.
+Print Assumptions C09_bufio_cutoff.
+Print Assumptions C09_terminates_adb_stream.
+Print Assumptions C09_ftp_never_spins.
+Print Assumptions C09_terminates_smtp.
+Print Assumptions C09_one_deadline_dummy.
+Print Assumptions C09_one_deadline_ftp.
+Print Assumptions C09_released_clean_services.
+Print Assumptions C09_history_additive.
+Print Assumptions C09_history_flat.
+Print Assumptions C09_history_clean_services.
+Print Assumptions C09_history_smtp_grows.
+Print Assumptions C09_history_ftp_grows.
